@@ -40,3 +40,73 @@ def expected_z(g):
 
 def model_zdump(ctx, grids):
     return ctx.model.ask_parallel([[Sym('zdump'), codec.enc_grid(g)] for g in grids])
+
+
+# ------------------------------------------------------------------ parallel implementation runs
+def _parse_worker(args):
+    text, mode, single = args
+    h = H()
+    import warnings
+    warnings.simplefilter('ignore')
+    try:
+        r = h.parse(text, mode=mode, single=single)
+        if single:
+            return ('ok', canon(r) if r is not None else ('none',))
+        return ('ok', ('list',) + tuple(canon(g) for g in r))
+    except Exception as e:  # noqa
+        return ('raise', codec.exc_class(e), getattr(e, 'line', None), getattr(e, 'col', None))
+
+
+def _scalar_worker(args):
+    text, mode, ver = args
+    h = H()
+    import warnings
+    warnings.simplefilter('ignore')
+    try:
+        return ('ok', canon(h.parse_scalar(text, mode=mode, version=ver)))
+    except Exception as e:  # noqa
+        return ('raise', codec.exc_class(e), isinstance(e, ValueError))
+
+
+_POOL = {}
+
+
+def pool():
+    if 'p' not in _POOL:
+        import multiprocessing
+        H()
+        _POOL['p'] = multiprocessing.get_context('fork').Pool(14)
+    return _POOL['p']
+
+
+def impl_parse_many(texts, mode=None, single=False):
+    h = H()
+    mode = mode or h.MODE_ZINC
+    return pool().map(_parse_worker, [(t, mode, single) for t in texts], chunksize=8)
+
+
+def impl_scalar_many(texts, ver='3.0', mode=None):
+    h = H()
+    mode = mode or h.MODE_ZINC
+    return pool().map(_scalar_worker, [(t, mode, ver) for t in texts], chunksize=16)
+
+
+def model_zparse(ctx, texts):
+    """model results for whole documents, as ('ok', ('list', grids...)) / ('raise', name)"""
+    out = []
+    for a in ctx.model.ask_parallel([[Sym('zparse'), t] for t in texts]):
+        if a[0] == 'ok':
+            try:
+                out.append(('ok', ('list',) + tuple(codec.canon_model(x) for x in a[1])))
+            except codec.ModelRaise:
+                out.append(('raise', 'ZincParseException'))   # parse_grid wraps whatever a parse action raises
+        else:
+            out.append(('raise', a[1]))
+    return out
+
+
+def model_zscalar(ctx, texts, ver3=True):
+    out = []
+    for a in ctx.model.ask_parallel([[Sym('zparse'), bool(ver3), t] for t in texts]):
+        out.append(codec.model_result(a))
+    return out
